@@ -106,10 +106,12 @@ class InsecureHomeKitProtocol(asyncio.Protocol):
         self.transport = transport
 
     def connection_lost(self, exception: Exception) -> None:
-        current = self.connection.protocol
-        if current is None or current is self:
+        if self.connection.protocol is self:
             # Only tear down the connection state if it still refers to us:
-            # the loss of an abandoned socket must not close its successor.
+            # the loss of an abandoned socket must not close its successor, and
+            # a socket the connection dropped on purpose (failed setup, close)
+            # must not restart the connector - e.g. after an authentication
+            # failure, which is meant to end the retries.
             self.connection._connection_lost(exception)
         self._cancel_pending_requests()
 
